@@ -238,6 +238,11 @@ func (qe *QueryExecutor) loadBlock(ctx context.Context, taskData ResponseTask, l
 		}
 	}
 	data := blockBuffer.Bytes()
+	if data == nil {
+		// a zero-length block copied out of a plain io.Reader leaves the buffer's slice nil, and
+		// nil data means "block missing" to the response builder; the block was loaded, so say so
+		data = []byte{}
+	}
 	err = taskData.Traverser.Advance(blockBuffer)
 	if err != nil {
 		log.Errorf("failed to advance traversal, link=%s, nBlocksRead=%d, err=%s", lnk, taskData.Traverser.NBlocksTraversed(), err)
